@@ -1279,7 +1279,9 @@ class disasmEngine(object):
                 break
 
             lines_cpt += 1
-            if self.lines_wd is not None and lines_cpt > self.lines_wd:
+            if (self.lines_wd is not None and lines_cpt > self.lines_wd and
+                not in_delayslot):
+                # (a branch is never separated from its delay slot)
                 log_asmblock.debug("lines watchdog reached at %X", int(offset))
                 break
 
